@@ -77,7 +77,8 @@ Inductive op :=
                                                         setitem, del, remove, clear, extend, dict setitem /
                                                         del, set add / remove, all are instances) *)
 | Probe (o : oid)                                    (* o.value = a fresh integer *)
-| AddTrait (o : oid) (f : fname).                    (* o.add_trait(name_f, Instance(HasTraits)) *)
+| AddTrait (o : oid) (f : fname)                     (* o.add_trait(name_f, Instance(HasTraits)) *)
+| DelCont (o : oid) (f : fname).                     (* del o.f for a List/Dict/Set trait that has a value *)
 
 (* what one operation shows *)
 Record obs := mkObs {
@@ -292,6 +293,23 @@ Definition step (st : state) (o : op) : state * obs :=
       | _ => change st c f (splice olds i n vs) removed vs false true
       end
   | Probe x => change st x 0 (h x 0) [] [] false false
+  | DelCont x f =>
+      (* ctraits.c setattr_trait l.2392-2437 (value == NULL): the dict entry is deleted and, when the trait
+         has notifiers, the default is obtained with traito->getattr, i.e. getattr_trait, which stores it AND
+         notifies (Uninitialized -> new); then call_notifiers(old -> new) once more.  Two notifications
+         for one deletion: every maintainer hooks the new container twice (finding: the reference count
+         of the new container is 2, so a later replacement leaves it hooked). *)
+      match h x f with
+      | [] => quiet st
+      | y :: _ =>
+          let olds := h x f in
+          let c := st_next st in
+          let prevented := match h y (items_field f) with [] => true | _ => false end in
+          let st0 := mkState t h (st_hooks st) (st_regs st) (S c) in
+          let '(st1, ob1) := change st0 x f [c] [] [c] true false in
+          let '(st2, ob2) := change st1 x f [c] olds [c] prevented false in
+          (st2, mkObs (match ob_out ob1 with Ok => ob_out ob2 | e => e end) (ob_calls ob2) [(x, f, [c])])
+      end
   end.
 
 Fixpoint run (st : state) (ops : list op) : list (op * obs) :=
@@ -327,6 +345,7 @@ Definition op_hyp (st : state) (o : op) : bool :=
   let t := st_traits st in
   let rs := st_regs st in
   match o with
+  | DelCont _ _ => false      (* outside the theorems: the double notification breaks the invariant *)
   | AddTrait x f =>          (* a new trait has no value yet; nodes naming it carry the trait_added graph *)
       negb (t x f) && is_nil_b (h x f) && forallb (fun r : reg => wf_dyn f (snd r)) rs
   | Observe _ _ _ => true
@@ -365,5 +384,6 @@ Definition notified (st : state) (o : op) : option (oid * fname) :=
   | Splice c f i n vs => match spliced_out (h c f) i n ++ vs with [] => None | _ => Some (c, f) end
   | Probe x => Some (x, 0)
   | AddTrait x f => if st_traits st x f then None else Some (x, TA)
+  | DelCont x f => None
   end.
 
